@@ -196,6 +196,7 @@ theorem C07_invert_pipeline (o : RecOpt) (c : Corpus) (G : Recorder.GoodCorpus c
       Recorder.readBack o (Recorder.serializeTerm o r) = some (e.2.map (project o))) ∧
     (Recorder.indexCorpus o c).totalNumTokens = (invert c).totalNumTokens ∧
     c.map (fun d => FieldNorm.fieldnormId (Recorder.docTokenCount o d)) = fieldnormIds (invert c) := by
+  have _tie : Gen.Postings.INDEX_TEXT_SHAPE_OK = 1 := by decide
   have hmap : (invert c).terms.map (·.1) = termsOf Gen.Postings.POSITION_GAP c := by
     simp [invert, invertWith, Function.comp_def]
   refine ⟨fun t => by rw [hmap]; exact Recorder.table_keys o c t, ?_, Recorder.indexCorpus_total o c, ?_⟩
@@ -265,6 +266,23 @@ theorem C07_values_gap_separated (gap e : Nat) (A : List Value) (v : Value) (B :
     ∀ t ∈ v, ∀ o ∈ docOccsFrom gap (indexValue gap (JsonPositions.endAfter gap e A) v).2 B,
       JsonPositions.endAfter gap e A + t.pos + t.posLen + gap ≤ o.2 :=
   JsonPositions.values_gap_separated gap e A v B
+
+/-- **JSON fields through the pipeline.**  With the occurrences positioned per path (`asDoc`), the
+recorder → serializer → decoder pipeline returns, for every term of the JSON field, the postings
+of `invertJson`: text terms through the recorder of the field's option, typed leaves (numbers,
+bools, dates) through the doc-id-only recorder of the second postings writer. -/
+theorem C07_json_pipeline (o : RecOpt) (c : List (List JsonPositions.JEvent))
+    (G : Recorder.GoodCorpus (c.map (JsonPositions.asDoc Gen.Postings.POSITION_GAP))) :
+    ∀ e ∈ (JsonPositions.invertJson o c).1, ∃ o' r,
+      o' = (if (c.flatMap JsonPositions.nonTextTerms).contains e.1 then RecOpt.basic else o) ∧
+      (Recorder.indexCorpus o' (c.map (JsonPositions.asDoc Gen.Postings.POSITION_GAP))).table e.1 = some r ∧
+      Recorder.readBack o' (Recorder.serializeTerm o' r) = some e.2 := by
+  intro e he
+  simp only [JsonPositions.invertJson, List.mem_map] at he
+  obtain ⟨e0, he0, rfl⟩ := he
+  obtain ⟨r, h1, _, h3⟩ := (C07_invert_pipeline
+    (if (c.flatMap JsonPositions.nonTextTerms).contains e0.1 then RecOpt.basic else o) _ G).2.1 e0 he0
+  exact ⟨(if (c.flatMap JsonPositions.nonTextTerms).contains e0.1 then RecOpt.basic else o), r, rfl, h1, h3⟩
 
 /-! ### recycled block cursor -/
 
@@ -429,6 +447,10 @@ example : JsonPositions.occs 1 [⟨[97], true, [⟨[1], 0, 1⟩, ⟨[2], 1, 1⟩
   decide
 example : Recorder.sortPostings ([⟨0, 1, [0]⟩, ⟨1, 2, [0, 2]⟩, ⟨2, 1, [4]⟩].map (Recorder.remapPosting (fun d => 2 - d))) =
     [⟨0, 1, [4]⟩, ⟨1, 2, [0, 2]⟩, ⟨2, 1, [0]⟩] := by decide
+example : (BlockPostings.open cfg .basic .basic 3 [129, 132, 132]).skip.skipInfo = .basic ∧
+    (BlockPostings.open cfg .basic .basic 3 [129, 132, 132]).freqOpt = freqOptOf .basic .basic ∧
+    ValidList [1, 5, 9] [1, 1, 1] := by
+  refine ⟨by decide, by decide, ⟨by decide, by decide, by decide, by decide⟩⟩
 example : 0 < TermInfoStore.BLOCK_LEN ∧ TermInfoStore.BLOCK_LEN = 256 := by decide
 theorem C07_terminfo_example_good :
     TermInfoStore.GoodStore 2 [⟨512, 51, 57, 110, 134⟩, ⟨3, 57, 60, 134, 134⟩, ⟨9, 70, 100, 140, 150⟩] := by
